@@ -126,6 +126,9 @@ class ComplexStep(ApproximationScheme):
         system._outputs._data.imag[:] = 0.0
         saved_resids = system._residuals.asarray(copy=True)
         system._residuals._data.imag[:] = 0.0
+        # discrete outputs written while running the perturbed points must not survive either
+        douts = system._discrete_outputs
+        saved_douts = dict(douts.items()) if douts else None
 
         # Turn on complex step.
         system._set_complex_step_mode(True)
@@ -143,6 +146,9 @@ class ComplexStep(ApproximationScheme):
         system._inputs.set_val(saved_inputs)
         system._outputs.set_val(saved_outputs)
         system._residuals.set_val(saved_resids)
+        if saved_douts is not None:
+            for name, val in saved_douts.items():
+                douts[name] = val
 
     def _get_multiplier(self, delta):
         """
